@@ -11,6 +11,10 @@ reach, over the SCALE model of C11/C12 and the protobuf-go wire model of Lib/C33
                                "the re-encoding is shorter than 2^64 bytes" is needed for block
                                responses only:
   C33_reencode_small           … every other decoder, no hypothesis
+  C33_stream_no_panic / C33_stream_frame / C33_stream_buffer   (Lib/C33Stream.lean) the LEB128 length
+                               prefix of `readStream`: no panic, exact framing under any chunking of
+                               `Read`, pooled buffer ≤ max(len, maxSize); C33_stream_old_* = the three
+                               repaired defects
   C33_steps_linear             unmarshal calls + glue iterations ≤ stepsA k * |bs| + stepsB k
   C33_steps_constants          the constants, e.g. (10,119) block announce, (139,324) GRANDPA message
   C33_steps_block              block response: SCALE work per block linear in the field sizes protobuf
@@ -28,6 +32,7 @@ import Gossamer.Model.C33
 import Gossamer.Lib.C33Reencode
 import Gossamer.Lib.C33Cost
 import Gossamer.Lib.C33WireSize
+import Gossamer.Lib.C33Stream
 namespace Gossamer.C33
 open Gossamer Gossamer.Scale Gossamer.Proto
 
@@ -130,6 +135,12 @@ theorem C33_no_panic (k : Kind) (bs : Bytes) : decode k bs ≠ .panic := by
     | panic => exact absurd h this
     | err => simp
     | ok v => exact grandpaGlue_ne_panic v
+  case sreq => unfold decodeStateRequest; cases goParse bs <;> simp
+  case sresp =>
+    unfold decodeStateResponse
+    cases goParse bs with
+    | none => simp
+    | some fs => simp only; cases kvEntriesOf fs <;> simp
   all_goals exact scaleMsg_ne_panic _ (unmarshalTop_ne_panic _ bs)
 
 /-! ## re-encoding -/
@@ -237,8 +248,24 @@ theorem plain_reencode (t : Ty) (hwf : t.wf = true) (bs : Bytes) (m : Msg)
   obtain ⟨v, hv, hm⟩ := scaleMsg_ok h
   exact ⟨v, hm, by rw [scale_reencode t hwf bs v hv]; rfl⟩
 
-theorem reencode_core (k : Kind) (bs : Bytes) (m : Msg)
-    (hsz : k = .bresp → (encode k m).length < 18446744073709551616)
+theorem stateRequest_reencode (bs : Bytes) (m : Msg)
+    (hsz : (encode .sreq m).length < 18446744073709551616)
+    (h : decodeStateRequest bs = .ok m) : decodeStateRequest (encode .sreq m) = .ok m := by
+  unfold decodeStateRequest at h
+  cases hp : goParse bs with
+  | none => simp [hp] at h
+  | some fs =>
+    simp only [hp, Out.ok.injEq] at h
+    subst h
+    simp only [encode] at hsz ⊢
+    have hok := fieldOk_of_size _ hsz (fun f hf => (stateReq_shape _ f hf).1)
+      (fun f hf => (stateReq_shape _ f hf).2)
+    unfold decodeStateRequest
+    rw [goParse_encFields _ hok]
+    simp only [StateReqP.ofFields_toFields, bytesToHash_of_32 _ (length_bytesToHash _)]
+
+theorem reencode_core (k : Kind) (bs : Bytes) (m : Msg) (hk : k ≠ .sresp)
+    (hsz : k = .bresp ∨ k = .sreq → (encode k m).length < 18446744073709551616)
     (h : decode k bs = .ok m) : decode k (encode k m) = .ok m := by
   cases k <;> simp only [decode] at h ⊢
   case txh => simp only [Out.ok.injEq] at h; subst h; rfl
@@ -269,7 +296,7 @@ theorem reencode_core (k : Kind) (bs : Bytes) (m : Msg)
           | panic => simp [hd] at h
           | ok ms' => simp only [hd, Out.ok.injEq] at h; exact ⟨ms', h.symm⟩
     obtain ⟨ms, rfl⟩ := hm
-    exact blockResponse_reencode bs ms (hsz rfl) h
+    exact blockResponse_reencode bs ms (hsz (Or.inl rfl)) h
   case body =>
     cases hn : newBodyFromBytes bs with
     | none => simp [hn] at h
@@ -297,20 +324,23 @@ theorem reencode_core (k : Kind) (bs : Bytes) (m : Msg)
   case lresp => obtain ⟨v, rfl, hre⟩ := plain_reencode _ wf_lightResponse bs m h; exact hre
   case warp => obtain ⟨v, rfl, hre⟩ := plain_reencode _ wf_warp bs m h; exact hre
   case ghs => obtain ⟨v, rfl, hre⟩ := plain_reencode _ wf_grandpaHandshake bs m h; exact hre
+  case sreq => exact stateRequest_reencode bs m (hsz (Or.inr rfl)) h
+  case sresp => exact absurd rfl hk
+  case wproof => obtain ⟨v, rfl, hre⟩ := plain_reencode _ (by decide) bs m h; exact hre
 
 /-- **C33 (re-encoding)**: a message any decoder returned, encoded by the Go `Encode`, decodes to
-    an equal message.  The size hypothesis says that the re-encoded message is a real byte slice
-    (protobuf length prefixes are 64-bit); it is used for block responses only, see
-    `C33_reencode_small`. -/
-theorem C33_reencode (k : Kind) (bs : Bytes) (m : Msg)
+    an equal message (`StateResponse` has no `Encode` in the Go code and is excluded).  The size
+    hypothesis says that the re-encoded message is a real byte slice (protobuf length prefixes are
+    64-bit); it is used for block responses and state requests only, see `C33_reencode_small`. -/
+theorem C33_reencode (k : Kind) (hk : k ≠ .sresp) (bs : Bytes) (m : Msg)
     (hsz : (encode k m).length < 18446744073709551616)
     (h : decode k bs = .ok m) : decode k (encode k m) = .ok m :=
-  reencode_core k bs m (fun _ => hsz) h
+  reencode_core k bs m hk (fun _ => hsz) h
 
-/-- every decoder except the block response: no size hypothesis at all -/
-theorem C33_reencode_small (k : Kind) (hk : k ≠ .bresp) (bs : Bytes) (m : Msg)
-    (h : decode k bs = .ok m) : decode k (encode k m) = .ok m :=
-  reencode_core k bs m (fun e => absurd e hk) h
+/-- every other decoder: no size hypothesis at all -/
+theorem C33_reencode_small (k : Kind) (hk : k ≠ .bresp) (hk2 : k ≠ .sreq) (hk3 : k ≠ .sresp)
+    (bs : Bytes) (m : Msg) (h : decode k bs = .ok m) : decode k (encode k m) = .ok m :=
+  reencode_core k bs m hk3 (fun e => by rcases e with e | e <;> contradiction) h
 
 /-- non-vacuity: a block announcement with one digest item, and a block response with a body of
     two extrinsics, decode -/
@@ -333,10 +363,12 @@ theorem seqOk_kinds (k : Kind) (t : Ty) (hk : k.ty = some t) : t.wf = true ∧ s
 /-- **C33 (time)**: the number of `unmarshal` calls and glue-loop iterations of every decoder
     except the block response is at most `stepsA k * |input| + stepsB k`; the constants are those
     of the message type (`C33_steps_constants`).  The block response is `C33_steps_linear_bresp`. -/
-theorem C33_steps_linear (k : Kind) (hk : k ≠ .bresp) (bs : Bytes) :
+theorem C33_steps_linear (k : Kind) (hk : k ≠ .bresp) (hk2 : k ≠ .sresp) (bs : Bytes) :
     (msgCost k bs).steps ≤ stepsA k * bs.length + stepsB k := by
   cases k <;> simp only [msgCost, stepsA, stepsB, Kind.ty]
   case bresp => exact absurd rfl hk
+  case sresp => exact absurd rfl hk2
+  case sreq => omega
   case txh => omega
   case cons => omega
   case breq => omega
@@ -352,7 +384,8 @@ theorem C33_steps_constants :
     (stepsA .tx, stepsB .tx) = (3, 3) ∧ (stepsA .lreq, stepsB .lreq) = (1, 108) ∧
     (stepsA .lresp, stepsB .lresp) = (128, 148) ∧ (stepsA .warp, stepsB .warp) = (0, 35) ∧
     (stepsA .body, stepsB .body) = (1, 2) ∧ (stepsA .gmsg, stepsB .gmsg) = (139, 324) ∧
-    (stepsA .ghs, stepsB .ghs) = (0, 3) := by decide
+    (stepsA .ghs, stepsB .ghs) = (0, 3) ∧ (stepsA .wproof, stepsB .wproof) = (sA warpProofTy, sB warpProofTy) := by
+  decide
 
 /-- the byte stream `NewBodyFromEncodedBytes` hands to `scale.Unmarshal` -/
 def bodyStream (d : Proto.BlockData) : Bytes := C11.encodeBigInt d.body.length ++ d.body.flatten
@@ -416,6 +449,22 @@ theorem C33_steps_linear_bresp (bs : Bytes) : (msgCost .bresp bs).steps ≤ 125 
       simp only [Cost.add]
       omega
 
+/-- **C33 (time, state response)**: the copy loops of `StateResponse.Decode` run at most once per
+    input byte -/
+theorem C33_steps_linear_sresp (bs : Bytes) : (msgCost .sresp bs).steps ≤ bs.length + 1 := by
+  simp only [msgCost]
+  cases hp : goParse bs with
+  | none => simp only; omega
+  | some fs =>
+    simp only
+    cases hk : kvEntriesOf fs with
+    | none => simp only; omega
+    | some es =>
+      have h1 := kvEntriesOf_size fs es hk
+      have h2 := goParse_size bs fs hp
+      simp only
+      omega
+
 /-- the decoders whose messages contain no Go `[]byte` / `string` -/
 def bytesFree (k : Kind) : Bool :=
   match k.ty with
@@ -437,6 +486,12 @@ theorem C33_alloc_linear_partial (k : Kind) (hk : bytesFree k = true) (bs : Byte
   case lreq => exact absurd hk (by decide)
   case lresp => exact absurd hk (by decide)
   case body => exact absurd hk (by decide)
+  case wproof => exact absurd hk (by decide)
+  case sreq => omega
+  case sresp =>
+    split
+    · omega
+    · split <;> omega
   case bah =>
     have h1 := alloc_le_steps _ hk bs
     have h2 := steps_le_input baHandshakeTy (by decide) (by decide) bs
